@@ -185,6 +185,8 @@ def check_template(tpl):
             if "AEM" in lem:
                 for direction, r in (("J-S", inter(WF12, LM, comp(SM))), ("S-J", inter(WF12, SM, comp(LM)))):
                     v, w = q.check(r)
+                    if tpl.get("crosscheck") and v in ("sat", "unsat"):
+                        obligation("XCHECK", direction, q.crosscheck(r, v))
                     if v == "sat":
                         stream, n1 = split_coloured(M, w)
                         L = jasmapi.decode_stream(stream)
@@ -291,6 +293,15 @@ def run_templates(run, templates, procs=16):
     import multiprocessing as mp
 
     t0 = time.time()
+    from .common import seed as _seed, tier as _tier
+
+    if _tier() == "thorough":
+        import random as _random
+
+        rnd = _random.Random(_seed() + 77)
+        picks = [t for t in templates if not t.get("env_dom")]
+        for t in rnd.sample(picks, max(1, len(picks) // 20)) if picks else []:
+            t["crosscheck"] = True
     ctx = mp.get_context("fork")
     if procs > 1 and len(templates) > 1:
         with ctx.Pool(min(procs, len(templates))) as pool:
@@ -319,6 +330,11 @@ def run_templates(run, templates, procs=16):
             elif lemma == "TWIN":
                 if v != "refuted":
                     run.harness_error(f"template {r['id']}: wrong-spec twin was not distinguished (vacuous encoding?)")
+            elif lemma == "XCHECK":
+                if v.startswith("disagree"):
+                    run.harness_error(f"template {r['id']}: second solver (z3 4.8.12) {v} on AEM {o['dir']}")
+                elif v == "agree":
+                    run.count("second_solver_agreements")
             elif lemma == "E2E":
                 if v == "MISMATCH":
                     run.harness_error(f"template {r['id']}: end-to-end run on rendered witness {o.get('stream')!r} did not find the pattern ({o.get('detail')})")
